@@ -580,3 +580,9 @@ func RunFixed(t *testing.T, id string, cases map[string]func() error) {
 		}
 	}
 }
+
+// NewReplayCase builds a detached case that replays a fixed choice trace
+// (for deterministic sub-generators inside a larger case).
+func NewReplayCase(trace []int) *Case {
+	return &Case{ch: &recChooser{inner: &replayChooser{trace: trace}}}
+}
